@@ -859,6 +859,10 @@ func unmarshalStruct(
 				field, ok := valueType.FieldByNameFunc(func(str string) bool {
 					return str == name
 				})
+				if ok && field.PkgPath != "" {
+					// unexported fields cannot be set: treat the name as unknown
+					ok = false
+				}
 				if !ok {
 					if ctx.DisallowUnknownStructFields {
 						// check field deprecation
